@@ -19,7 +19,7 @@ Write logs and multipart restore are not part of this file (see Crash.lean for t
 
 Nodes are content addressed: the model is parametrised by `cl : Nat → List Nat`, the set of
 node hashes a reader fetches for the tree below a root hash (`cl 0` is `[0]`; the node with
-hash 0 is never stored, which is exactly why `Visit` of an empty root fails in `Prune`), and by
+hash 0 is never stored, which is why `Prune` does not traverse an empty root), and by
 `clv ⊇ cl`, which additionally contains the leaves embedded in internal nodes: those are
 serialized inside their parent (`InternalNode.MarshalBinary`) and never fetched by a reader,
 but `doCommit` also stores them under their own key and `Prune`'s visitor looks that key up.
@@ -222,10 +222,17 @@ def loneDeletes (clv : Nat → List Nat) (s : St) (v : Nat) (th : TH) : List Nat
 /-- The lone roots of a version (no derived roots). -/
 def loneRoots (s : St) (v : Nat) : List (TH × List TH) := (s.rmeta v).filter (fun e => e.2.isEmpty)
 
+/-- The lone roots `Prune` actually traverses: not the empty root (nothing to traverse; its
+root-node key is just deleted), and not a root whose root-node key is already gone — `Visit`
+then returns `ErrRootNotFound`, which `Prune` takes as "removed by an earlier, interrupted prune
+of this version" and carries on. -/
+def visitedRoots (s : St) (v : Nat) : List (TH × List TH) :=
+  (loneRoots s v).filter (fun e => e.1.2 != 0 && s.rootNode.live (encTH e.1) v)
+
 /-- `api.Visit` fetches every node through GetNode and fails on the first missing one, and the
 visitor's own `tx.Get(nodeKey)` fails for an embedded leaf whose separate copy is gone. -/
 def visitFails (cl clv : Nat → List Nat) (s : St) (v : Nat) : Bool :=
-  (loneRoots s v).any (fun e =>
+  (visitedRoots s v).any (fun e =>
     (cl e.1.2).any (fun h => !nodeVisible s { ver := v, typ := e.1.1, hash := e.1.2 } h)
     || (clv e.1.2).any (fun h => !s.node.live h v))
 
@@ -240,7 +247,7 @@ def pruneErr (cl clv : Nat → List Nat) (s : St) (v : Nat) : Option Err :=
     else none
 
 def pruneDels (clv : Nat → List Nat) (s : St) (v : Nat) : List Nat :=
-  (loneRoots s v).flatMap (fun e => loneDeletes clv s v e.1)
+  (visitedRoots s v).flatMap (fun e => loneDeletes clv s v e.1)
 
 def pruneSt (clv : Nat → List Nat) (s : St) (v : Nat) : St :=
   { s with
